@@ -18,6 +18,7 @@ import (
 	goerrors "errors"
 	"fmt"
 	"os"
+	"regexp"
 	"runtime"
 	"sort"
 	"strings"
@@ -52,6 +53,8 @@ type Schema struct {
 }
 type Pair struct {
 	ID     int             `json:"id"`
+	First  *Schema         `json:"first"` // version under which the first generation was stored (chains)
+	Chain  int             `json:"chain"` // 1: first -> old was an earlier update, old -> new is the second
 	Old    Schema          `json:"old"`
 	New    Schema          `json:"new"`
 	Ms     [][]string      `json:"ms"`
@@ -70,6 +73,8 @@ type Result struct {
 	Detail   []string `json:"detail,omitempty"`
 	Ms       string   `json:"ms"`
 	Usable   bool     `json:"usable"`
+	Chain    int      `json:"chain"`
+	FirstSrc string   `json:"first_src,omitempty"`
 	OldSrc   string   `json:"old_src,omitempty"`
 	NewSrc   string   `json:"new_src,omitempty"`
 	Reader   string   `json:"reader,omitempty"`
@@ -87,6 +92,9 @@ func (s *Schema) removed(d string) bool {
 	}
 	return false
 }
+
+// gone: removed with #removedType and not declared again
+func (s *Schema) gone(d string) bool { return s.removed(d) && !s.present(d) }
 func norm(t string) string {
 	if t == "C.E" {
 		return "E"
@@ -453,14 +461,14 @@ func (r *reader) build(st stored) (string, []string, []string) {
 			r.sb.WriteString("  let s = a.storage.copy<C.S>(from: /storage/s)!\n")
 			r.emit("stored S", "showS(&s as &C.S)", r.expectS())
 			for _, c := range r.old.Decls["S"].Confs {
-				if n.Decls[c].Kind == "sinterface" && !n.removed(c) {
+				if n.Decls[c].Kind == "sinterface" && !n.gone(c) {
 					r.emit("stored S isInstance {"+c+"}", fmt.Sprintf("s.isInstance(Type<{C.%s}>()) ? \"true\" : \"false\"", c), "true")
 				}
 			}
 			r.sb.WriteString("  let ds = a.storage.copy<{String: C.S}>(from: /storage/ds)!\n")
 			r.sb.WriteString("  let dsv = ds[\"k\"]!\n")
 			r.emit("dictionary value S", "showS(&dsv as &C.S)", r.expectS())
-		} else if !n.removed("S") {
+		} else if !n.gone("S") {
 			r.emit("stored S (type not declared by the new version)", "a.storage.borrow<&AnyStruct>(from: /storage/s)!.getType().identifier", cPrefix+"S")
 		}
 	}
@@ -478,7 +486,7 @@ func (r *reader) build(st stored) (string, []string, []string) {
 				r.emit("stored R field "+f.N, r.showExpr("r."+f.N, f.Ty), r.expectVal(f.Ty, fieldType(r.old.Decls["R"].Fields, f.N)))
 			}
 
-		case !n.removed("R"):
+		case !n.gone("R"):
 			any := "&AnyResource"
 			if st.rStruct {
 				any = "&AnyStruct"
@@ -504,23 +512,23 @@ func (r *reader) build(st stored) (string, []string, []string) {
 					r.emit(fmt.Sprintf("stored enum case %s identity", c), "\"case-"+c+"-not-declared-by-new-version\"", "is-"+c)
 				}
 			}
-		} else if !n.removed("E") {
+		} else if !n.gone("E") {
 			r.emit("stored [E] (E not declared as an enum by the new version)", "a.storage.copy<[AnyStruct]>(from: /storage/es)!.length.toString()", fmt.Sprint(len(r.old.Decls["E"].Cases)))
 		}
 	}
 	if st.is {
-		if n.Decls["I"].Kind == "sinterface" && !n.removed("I") {
+		if n.Decls["I"].Kind == "sinterface" && !n.gone("I") {
 			r.sb.WriteString("  let xs = a.storage.copy<[{C.I}]>(from: /storage/is)!\n")
 			r.emit("interface-typed element", "xs[0].getType().identifier", cPrefix+"S")
 			if sUsable {
 				r.sb.WriteString("  let xs0 = xs[0] as! C.S\n")
 				r.emit("interface-typed element as S", "showS(&xs0 as &C.S)", r.expectS())
 			}
-		} else if !n.removed("I") {
+		} else if !n.gone("I") {
 			r.emit("stored [{I}] (I not declared as a struct interface by the new version)", "a.storage.copy<[AnyStruct]>(from: /storage/is)!.length.toString()", "1")
 		}
 	}
-	if st.any && !n.removed("S") && !(st.anyE && n.removed("E")) {
+	if st.any && !n.gone("S") && !(st.anyE && n.gone("E")) {
 		r.sb.WriteString("  let anys = a.storage.copy<[AnyStruct]>(from: /storage/any)!\n")
 		if sUsable {
 			r.sb.WriteString("  let any0 = anys[0] as! C.S\n")
@@ -537,7 +545,7 @@ func (r *reader) build(st stored) (string, []string, []string) {
 			}
 		}
 	}
-	if st.t && !n.removed("T") {
+	if st.t && !n.gone("T") {
 		if r.usableType("T", "struct") {
 			r.emit("stored T", r.showExpr("a.storage.copy<C.T>(from: /storage/t)!", "T"), r.expectVal("T", "T"))
 		} else {
@@ -581,97 +589,78 @@ func msString(ms [][]string) string {
 	return strings.Join(parts, "; ")
 }
 
-func run(p *Pair, useVM bool) *Result {
-	eng := "interp"
-	if useVM {
-		eng = "vm"
+var pathRe = regexp.MustCompile(`/storage/([a-z]+)\)`)
+
+// withSuffix moves every storage path of a rendered transaction / script to the paths of a generation.
+func withSuffix(src, sfx string) string {
+	if sfx == "" {
+		return src
 	}
-	res := &Result{ID: p.ID, Engine: eng, Ms: msString(p.Ms), Usable: p.Usable}
-	oldSrc, newSrc := render(&p.Old), render(&p.New)
-	attach := func() { res.OldSrc, res.NewSrc = oldSrc, newSrc }
-	w := host.NewWorld()
-	addr := host.Addr(1)
-	signers := []common.Address{addr}
-	deploy := fmt.Sprintf("transaction { prepare(s: auth(Contracts) &Account) { s.contracts.add(name: \"C\", code: \"%s\".decodeHex()) } }", hex.EncodeToString([]byte(oldSrc)))
-	r := w.Tx(deploy, signers, useVM)
-	if r.Err != nil {
-		if host.IsInternal(r.Class) {
-			res.Kind, res.Msg = "internal", "deploying the old version: "+firstLines(r.Err, 6)
-			attach()
-			return res
+	return pathRe.ReplaceAllString(src, "/storage/${1}"+sfx+")")
+}
+
+// update submits contracts.update; outcome is "accepted", "rejected", "rejected-invalid-new", or "" with res filled (internal / harness)
+func update(w *host.World, res *Result, src string, useVM bool) string {
+	upd := fmt.Sprintf("transaction { prepare(s: auth(Contracts) &Account) { s.contracts.update(name: \"C\", code: \"%s\".decodeHex()) } }", hex.EncodeToString([]byte(src)))
+	r := w.Tx(upd, []common.Address{host.Addr(1)}, useVM)
+	if r.Err == nil {
+		return "accepted"
+	}
+	if host.IsInternal(r.Class) {
+		res.Kind, res.Msg = "internal", "contracts.update: "+firstLines(r.Err, 6)
+		return ""
+	}
+	var upe *stdlib.ContractUpdateError
+	var dep *stdlib.InvalidContractDeploymentError
+	switch {
+	case goerrors.As(r.Err, &upe):
+		var kinds []string
+		for _, e := range upe.Errors {
+			kinds = append(kinds, strings.TrimPrefix(fmt.Sprintf("%T", e), "*stdlib."))
 		}
-		// the mutated old schema does not render to a valid program: not a case of the property
-		res.Outcome = "old-invalid"
+		res.RejectBy = strings.Join(kinds, ",")
+		return "rejected"
+	case goerrors.As(r.Err, &dep):
 		res.Msg = firstLines(r.Err, 4)
-		res.OldSrc = oldSrc
-		return res
+		return "rejected-invalid-new"
 	}
-	st := whatIsStored(&p.Old)
-	stx := storeTx(&p.Old, st)
-	r = w.Tx(stx, signers, useVM)
-	if r.Err != nil {
-		res.Kind, res.Harness, res.Msg = "render", true, "storing instances under the old version failed: "+firstLines(r.Err, 8)+"\n"+stx
-		attach()
-		return res
+	var pc *cdcruntime.ParsingCheckingError
+	if goerrors.As(r.Err, &pc) {
+		res.Kind, res.Harness, res.Msg = "render", true, "update transaction does not check: "+firstLines(r.Err, 8)
+		return ""
 	}
-	upd := fmt.Sprintf("transaction { prepare(s: auth(Contracts) &Account) { s.contracts.update(name: \"C\", code: \"%s\".decodeHex()) } }", hex.EncodeToString([]byte(newSrc)))
-	r = w.Tx(upd, signers, useVM)
-	if r.Err != nil {
-		if host.IsInternal(r.Class) {
-			res.Kind, res.Msg = "internal", "contracts.update: "+firstLines(r.Err, 6)
-			attach()
-			return res
-		}
-		var upe *stdlib.ContractUpdateError
-		var dep *stdlib.InvalidContractDeploymentError
-		switch {
-		case goerrors.As(r.Err, &upe):
-			res.Outcome = "rejected"
-			var kinds []string
-			for _, e := range upe.Errors {
-				kinds = append(kinds, strings.TrimPrefix(fmt.Sprintf("%T", e), "*stdlib."))
-			}
-			res.RejectBy = strings.Join(kinds, ",")
-		case goerrors.As(r.Err, &dep):
-			res.Outcome = "rejected-invalid-new"
-			res.Msg = firstLines(r.Err, 4)
-		default:
-			var pc *cdcruntime.ParsingCheckingError
-			if goerrors.As(r.Err, &pc) {
-				res.Kind, res.Harness, res.Msg = "render", true, "update transaction does not check: "+firstLines(r.Err, 8)
-				return res
-			}
-			res.Outcome = "rejected"
-			res.RejectBy = r.Class
-		}
-		return res
-	}
-	res.Outcome = "accepted"
-	rd := &reader{old: &p.Old, new: &p.New}
-	src, keys, want := rd.build(st)
-	res.Reads = len(want)
+	res.RejectBy = r.Class
+	return "rejected"
+}
+
+// readBack reads the instances stored under `stored` (generation suffix sfx) under the deployed version `cur`.
+// It fills res.Kind when a read fails or differs; returns false when the run must stop.
+func readBack(w *host.World, res *Result, stored, cur *Schema, sfx, what string, useVM bool) bool {
+	rd := &reader{old: stored, new: cur}
+	src, keys, want := rd.build(whatIsStored(stored))
+	src = withSuffix(src, sfx)
+	res.Reads += len(want)
 	pr := w.Script(src, useVM)
 	if pr.Err != nil {
-		attach()
 		res.Reader = src
 		var pc *cdcruntime.ParsingCheckingError
 		if goerrors.As(pr.Err, &pc) {
 			res.Kind, res.Harness, res.Msg = "render", true, "the reading script does not check: "+firstLines(pr.Err, 10)
-			return res
+			return false
 		}
 		if host.IsInternal(pr.Class) {
 			res.Kind = "read-internal-error"
 		} else {
 			res.Kind = "read-fails"
 		}
-		res.Msg = "the update was accepted, reading the stored data under the new version fails (" + pr.Class + "): " + firstLines(pr.Err, 8)
-		return res
+		res.Msg = "the update was accepted, reading " + what + " fails (" + pr.Class + "): " + firstLines(pr.Err, 8)
+		return false
 	}
 	arr, ok := pr.Value.(cadence.Array)
 	if !ok || len(arr.Values) != len(want) {
 		res.Kind, res.Harness, res.Msg = "render", true, "reader returned an unexpected number of values"
 		res.Reader = src
-		return res
+		return false
 	}
 	if os.Getenv("VERIF_SELFTEST_CORRUPT") == "1" && len(want) > 0 { // negative control: corrupt the expected value of one read
 		want[len(want)-1] += "#"
@@ -679,14 +668,93 @@ func run(p *Pair, useVM bool) *Result {
 	for i, v := range arr.Values {
 		g := string(v.(cadence.String))
 		if g != want[i] {
-			res.Detail = append(res.Detail, fmt.Sprintf("%s: stored under the old version %q, read under the new version %q", keys[i], want[i], g))
+			res.Detail = append(res.Detail, fmt.Sprintf("%s: stored %q, read under the new version %q", keys[i], want[i], g))
 		}
 	}
 	if len(res.Detail) > 0 {
 		res.Kind = "read-differs"
-		res.Msg = "the update was accepted, stored data reads differently under the new version"
-		attach()
+		res.Msg = "the update was accepted, " + what + " reads differently under the new version"
 		res.Reader = src
+		return false
+	}
+	return true
+}
+
+func run(p *Pair, useVM bool) *Result {
+	eng := "interp"
+	if useVM {
+		eng = "vm"
+	}
+	res := &Result{ID: p.ID, Engine: eng, Ms: msString(p.Ms), Usable: p.Usable, Chain: p.Chain}
+	first := &p.Old
+	if p.Chain == 1 && p.First != nil {
+		first = p.First
+	}
+	firstSrc, oldSrc, newSrc := render(first), render(&p.Old), render(&p.New)
+	attach := func() { res.FirstSrc, res.OldSrc, res.NewSrc = firstSrc, oldSrc, newSrc }
+	w := host.NewWorld()
+	signers := []common.Address{host.Addr(1)}
+	deploy := fmt.Sprintf("transaction { prepare(s: auth(Contracts) &Account) { s.contracts.add(name: \"C\", code: \"%s\".decodeHex()) } }", hex.EncodeToString([]byte(firstSrc)))
+	r := w.Tx(deploy, signers, useVM)
+	if r.Err != nil {
+		if host.IsInternal(r.Class) {
+			res.Kind, res.Msg = "internal", "deploying the first version: "+firstLines(r.Err, 6)
+			attach()
+			return res
+		}
+		// the mutated schema does not render to a valid program: not a case of the property
+		res.Outcome = "old-invalid"
+		res.Msg = firstLines(r.Err, 4)
+		res.OldSrc = firstSrc
+		return res
+	}
+	store := func(sc *Schema, sfx string) bool {
+		stx := withSuffix(storeTx(sc, whatIsStored(sc)), sfx)
+		r := w.Tx(stx, signers, useVM)
+		if r.Err != nil {
+			res.Kind, res.Harness, res.Msg = "render", true, "storing instances failed: "+firstLines(r.Err, 8)+"\n"+stx
+			attach()
+			return false
+		}
+		return true
+	}
+	if !store(first, "") {
+		return res
+	}
+	if p.Chain == 1 {
+		// first step of the chain: first -> old (the specification judges it Usable)
+		switch out := update(w, res, oldSrc, useVM); out {
+		case "":
+			attach()
+			return res
+		case "accepted":
+		default:
+			res.Outcome = "chain-step1-" + out
+			return res
+		}
+		if !readBack(w, res, first, &p.Old, "", "the data stored under the first version (after the first update)", useVM) {
+			attach()
+			return res
+		}
+		if !store(&p.Old, "g2") {
+			return res
+		}
+	}
+	out := update(w, res, newSrc, useVM)
+	if out == "" {
+		attach()
+		return res
+	}
+	res.Outcome = out
+	if out != "accepted" {
+		return res
+	}
+	if !readBack(w, res, first, &p.New, "", "the data stored under the first version", useVM) {
+		attach()
+		return res
+	}
+	if p.Chain == 1 && !readBack(w, res, &p.Old, &p.New, "g2", "the data stored under the second version", useVM) {
+		attach()
 		return res
 	}
 	if !p.Usable {
